@@ -24,6 +24,7 @@ def run(chk):
     chk.rule("R03.1", "parser specials == writer escape sets (surface and tag), same escape character, separators agree")
     chk.rule("R03.2", "only ASCII constants and the iterated byte (once, in order) are pushed into the String's byte vector")
     chk.rule("R03.3", "tag padding tails of the two parsers are twins")
+    chk.rule("R03.4", "one tag marker per tag slot (absent slots keep an empty placeholder)")
     parser = C.find_parser(w, C.S + "::update_tokenized")
     chk.fn(parser, WT)
     pt, it, outs, H = fmt.parser_table(w, parser)
@@ -68,6 +69,18 @@ def run(chk):
     chk.ob("R03.1", "writer:separators", cs == (sep_boundary | sep_tag) and len(sep_boundary) == 1 and len(sep_tag) == 1,
            "write_tokenized_text writes separator bytes %s; the parser's token boundary is %s and its tag marker %s"
            % (sorted(map(chr, cs)), sorted(map(chr, sep_boundary)), sorted(map(chr, sep_tag))), sample={"written": sorted(map(chr, cs))})
+
+    # ---- tag slots: one marker per slot up to the last present tag, whether the slot is present or absent
+    marker = list(sep_tag)[0] if len(sep_tag) == 1 else None
+    slots = fmt.tag_slot_tables(w, WT, marker) if marker is not None else []
+    chk.floor("R03.4", "tag-marker loops", len(slots), 1)
+    for k, (f_, h_, ety, table) in enumerate(slots):
+        per_slot = "Option<&S::option::Option<" in ety or "Option<(usize, &S::option::Option<" in ety
+        okt = per_slot and table.get("Some") == {1} and table.get("None") == {1}
+        chk.ob("R03.4", "writer:tag-slot-loop[%d]:marker-per-slot" % k, okt,
+               "the tag loop of %s iterates over `%s` and pushes the tag marker %s times per (present, absent) slot; expected one marker for every slot (present or absent) up to the last present tag: "
+               "an absent tag before a present one must leave an empty placeholder, otherwise later tags shift into earlier categories" % (f_, ety, {k_: sorted(v_) for k_, v_ in table.items()}),
+               site=C.site(C.body(w, f_), h_), sample={"fn": f_, "element": ety, "table": {str(k_): sorted(v_) for k_, v_ in table.items()}})
     # unsafe region really is the as_mut_vec one
     wb = C.body(w, WT)
     uns = [cfgmod.callee(t) for _, t in cfgmod.calls(wb) if t["callee"].get("unsafe")]
